@@ -10,7 +10,11 @@ import (
 
 func init() {
 	if len(os.Args) > 1 && os.Args[1] == "dumpcalls" {
-		repo := "/repo"; if r := os.Getenv("DBG_REPO"); r != "" { repo = r }; p, err := LoadProg(repo, "", "", nil)
+		repo := "/repo"
+		if r := os.Getenv("DBG_REPO"); r != "" {
+			repo = r
+		}
+		p, err := LoadProg(repo, "", "", nil)
 		if err != nil {
 			fmt.Println(err)
 			os.Exit(1)
